@@ -1,6 +1,7 @@
 package main
 
 import (
+	"math/big"
 	"fmt"
 	"go/ast"
 	"go/token"
@@ -105,6 +106,12 @@ type FnCtx struct {
 	ifaceSrc map[ssa.Value]ssa.Value // MakeInterface look-through
 	closures map[ssa.Value]*ssa.MakeClosure
 	deferred []*ssa.Defer
+	rng      map[string][2]*big.Int // known interval of an Int term (implied by asserted type facts)
+	roMemo   map[*ssa.Alloc]bool
+	logical  map[string]binding // `logical n int` contract variables
+	nfam     int
+	fjPhi    *ssa.Phi // fork-join: loop counter of the spawning loop, checked at wg.Wait
+	fjHi     string
 	usedAssumed map[string]bool
 	calledRepo  map[*ssa.Function]bool
 	retIdx int
@@ -166,6 +173,13 @@ func (fc *FnCtx) freshName(base string) string {
 func (fc *FnCtx) declare(name string, s Sort) Term {
 	fc.decls = append(fc.decls, Decl{fc.curBlk, fmt.Sprintf("(declare-const %s %s)", smtName(name), s)})
 	return Term{smtName(name), s}
+}
+
+// defineEq names a term by a constant and an equation (never a macro): the name may then occur
+// in quantifier patterns even if the term contains an ite.
+func (fc *FnCtx) defineEq(name string, t Term) Term {
+	fc.decls = append(fc.decls, Decl{fc.curBlk, fmt.Sprintf("(declare-const %s %s)\n(assert (= %s %s))", smtName(name), t.Sort, smtName(name), t.S)})
+	return Term{smtName(name), t.Sort}
 }
 
 func (fc *FnCtx) define(name string, t Term) Term {
@@ -286,6 +300,9 @@ func (fc *FnCtx) typeFacts(t types.Type, v Value, next Term) []Term {
 		}
 	case *types.Slice:
 		if v.K == KSlice {
+			// the same bounds, for the interval tracker that removes impossible wrap-arounds
+			fc.noteRange(v.Len(), big.NewInt(0), big.NewInt(maxSliceCapInt))
+			fc.noteRange(v.Cap(), big.NewInt(0), big.NewInt(maxSliceCapInt))
 			if f := fc.eng.otypeFact(v.Obj(), t); f.S != "true" {
 				out = append(out, f)
 			}
@@ -491,6 +508,12 @@ func (fc *FnCtx) translate() {
 	}
 	fc.analyze()
 	fc.curBlk = -1
+	if fc.c != nil && len(fc.c.Logical) > 0 {
+		fc.logical = map[string]binding{}
+		for _, lv := range fc.c.Logical {
+			fc.logical[lv] = binding{Leaf(fc.freshConst("logical_"+lv, SInt)), specIntType}
+		}
+	}
 	st := fc.initialState()
 	// one "visited" ghost set per range-over-map iterator
 	fc.rangeGhost = map[*ssa.Range]string{}
@@ -584,6 +607,17 @@ func (fc *FnCtx) translate() {
 	}
 	for _, b := range fc.order {
 		fc.block(b)
+	}
+	// a call-site assertion whose call has disappeared is a failed obligation, not a vacuous one
+	if fc.c != nil {
+		fc.curBlk = -1
+		for i := range fc.c.CallAsserts {
+			ca := &fc.c.CallAsserts[i]
+			if ca.Hits == 0 {
+				o := fc.oblige("assert-call", ca.Callee+": no matching call site for "+ca.Clause.Text, fn.Pos(), TFalse)
+				o.preSolved, o.Status, o.Solver = true, "refuted", "static"
+			}
+		}
 	}
 }
 
@@ -758,6 +792,7 @@ func (fc *FnCtx) loopHeader(b *ssa.BasicBlock, li *LoopInfo, preds []*ssa.BasicB
 		body := Implies(Lt(oq, preState.next), k)
 		fc.assume(Term{fmt.Sprintf("(forall ((o!lf Int)) %s)", body.S), SBool})
 	}
+	fc.keepReadOnlyLocals(preState, st, b)
 	if allocs {
 		nn := fc.declare(fmt.Sprintf("next_loop%d", li.ord), SInt)
 		fc.assume(Ge(nn, preState.next))
@@ -892,7 +927,10 @@ func (fc *FnCtx) checkInvariants(li *LoopInfo, env *Env, kind string, guard Term
 	}
 	// frame
 	if fr, ok := fc.loopFrame(li, env.st); ok {
-		fc.obligeAt(blk, kind, fmt.Sprintf("loop%d:frame", li.ord), token.NoPos, Implies(guard, fr))
+		labels, parts := frameParts(fr)
+		for i := range parts {
+			fc.obligeAt(blk, kind, fmt.Sprintf("loop%d:frame[%s]", li.ord, labels[i]), token.NoPos, Implies(guard, parts[i]))
+		}
 	}
 	if fc.c != nil {
 		for _, pz := range fc.c.Preserves {
@@ -1117,6 +1155,140 @@ func (fc *FnCtx) sortsOfType(t types.Type, out map[Sort]bool) {
 			out[hs] = true
 		}
 	}
+}
+
+// readOnlyLocal: a local variable (spilled parameter, local struct, or variable captured by
+// closures) that is written exactly once, outside every loop, by a direct store in this
+// function, and otherwise only read: through field/index addresses here, and only loaded in
+// every closure that captures it. Its address is never passed, stored or sliced. No loop
+// iteration, no callee and no closure can change its cells.
+func (fc *FnCtx) readOnlyLocal(a *ssa.Alloc) bool {
+	if v, ok := fc.roMemo[a]; ok {
+		return v
+	}
+	if fc.roMemo == nil {
+		fc.roMemo = map[*ssa.Alloc]bool{}
+	}
+	stores := 0
+	// readsOnly: every use of the address v (in function fn) only reads through it. A variable
+	// captured by a closure is followed into the closure body: the closure must only load it
+	// (or hand it to a nested closure that only loads it).
+	var readsOnly func(v ssa.Value, root bool, depth int) bool
+	readsOnly = func(v ssa.Value, root bool, depth int) bool {
+		refs := v.Referrers()
+		if refs == nil || depth > 3 {
+			return false
+		}
+		for _, r := range *refs {
+			switch x := r.(type) {
+			case *ssa.UnOp:
+				if x.Op != token.MUL {
+					return false
+				}
+			case *ssa.FieldAddr:
+				if !readsOnly(x, false, depth) {
+					return false
+				}
+			case *ssa.IndexAddr:
+				if x.X != v || !readsOnly(x, false, depth) {
+					return false
+				}
+			case *ssa.DebugRef:
+			case *ssa.Store:
+				if !root || x.Addr != v || x.Val == v || depth > 0 {
+					return false
+				}
+				stores++
+				if fc.inLoop(x.Block()) {
+					return false
+				}
+			case *ssa.MakeClosure:
+				cf, ok := x.Fn.(*ssa.Function)
+				if !ok {
+					return false
+				}
+				for i, b := range x.Bindings {
+					if b == v {
+						if i >= len(cf.FreeVars) || !readsOnly(cf.FreeVars[i], true, depth+1) {
+							return false
+						}
+					}
+				}
+			default:
+				return false
+			}
+		}
+		return true
+	}
+	ok := a.Referrers() != nil && readsOnly(a, true, 0) && stores == 1
+	fc.roMemo[a] = ok
+	return ok
+}
+
+// keepReadOnlyLocals: after a havoc (loop header, unknown call) the cells of every read-only
+// local that was initialised before keep their values.
+func (fc *FnCtx) keepReadOnlyLocals(pre, post *State, at *ssa.BasicBlock) {
+	for _, b := range fc.fn.Blocks {
+		for _, ins := range b.Instrs {
+			a, ok := ins.(*ssa.Alloc)
+			if !ok || !fc.readOnlyLocal(a) {
+				continue
+			}
+			p, known := fc.vals[a]
+			if !known || p.K != KPtr {
+				continue
+			}
+			// its single store must dominate the havoc point
+			var st *ssa.Store
+			for _, r := range *a.Referrers() {
+				if s, ok := r.(*ssa.Store); ok {
+					st = s
+				}
+			}
+			if st == nil || !(st.Block() == at || st.Block().Dominates(at)) || (st.Block() == at && fc.inLoop(at)) {
+				continue
+			}
+			for _, hs := range heapSorts {
+				if pre.heap[hs].S != post.heap[hs].S {
+					fc.assume(Eq(Select(post.heap[hs], p.Obj()), Select(pre.heap[hs], p.Obj())))
+				}
+			}
+			// ... and still hold the value of the single store (stated directly, so that the
+			// solver need not walk the chain of heap updates back to it)
+			if sv, ok := fc.vals[st.Val]; ok {
+				et := a.Type().Underlying().(*types.Pointer).Elem()
+				cur := fc.load(post, et, p.Obj(), p.Off())
+				if eq, ok := sameValue(cur, sv); ok {
+					fc.assume(eq)
+				}
+			}
+		}
+	}
+}
+
+// sameValue: leaf-wise equality of two values of the same shape.
+func sameValue(a, b Value) (Term, bool) {
+	if a.K != b.K || len(a.E) != len(b.E) {
+		return Term{}, false
+	}
+	if a.K == KLeaf {
+		if a.T.Sort != b.T.Sort {
+			return Term{}, false
+		}
+		return Eq(a.T, b.T), true
+	}
+	if a.K == KOpaque {
+		return TTrue, true
+	}
+	var cs []Term
+	for i := range a.E {
+		c, ok := sameValue(a.E[i], b.E[i])
+		if !ok {
+			return Term{}, false
+		}
+		cs = append(cs, c)
+	}
+	return And(cs...), true
 }
 
 // ---------------------------------------------------------------------
